@@ -128,10 +128,13 @@ Next == \/ \E t \in Threads : AcqCall(t) \/ AcqOther(t) \/ AcqLoadC(t) \/ AcqLoa
 Spec == Init /\ [][Next]_vars
 
 (* ------------------------------ model constants (cfg files cannot hold records) ------------------------------ *)
-CfgsSmall == {[mif |-> TRUE, M |-> 1], [mif |-> TRUE, M |-> 2], [mif |-> FALSE, M |-> 0]}
-CfgsResize == {[mif |-> TRUE, M |-> 0], [mif |-> TRUE, M |-> 1], [mif |-> TRUE, M |-> 2]}
-Init1 == [mif |-> TRUE, M |-> 1]
-Init2 == [mif |-> TRUE, M |-> 2]
+\* v: everything in the schema besides type and limit (strategy, global blocks): a change of v alone is still a Sync of a
+\* CHANGED schema, applied as "resize in place" (to the same or another limit) - it must not forget who is in flight
+CfgsSmall == {[mif |-> TRUE, M |-> 1, v |-> 0], [mif |-> TRUE, M |-> 2, v |-> 0], [mif |-> FALSE, M |-> 0, v |-> 0]}
+CfgsResize == {[mif |-> TRUE, M |-> 0, v |-> 0], [mif |-> TRUE, M |-> 1, v |-> 0], [mif |-> TRUE, M |-> 2, v |-> 0]}
+CfgsVar == {[mif |-> TRUE, M |-> 1, v |-> 0], [mif |-> TRUE, M |-> 1, v |-> 1], [mif |-> TRUE, M |-> 2, v |-> 1], [mif |-> TRUE, M |-> 1, v |-> 2]}
+Init1 == [mif |-> TRUE, M |-> 1, v |-> 0]
+Init2 == [mif |-> TRUE, M |-> 2, v |-> 0]
 
 (* ------------------------------ properties ------------------------------ *)
 Linearizable == mon # {}                      \* L1 => L0 (with interval tolerance)
